@@ -18,7 +18,8 @@ from vlib import wire
 
 PROPERTY = "C13"
 LEVEL = "fault_enumeration"
-RULE = ("a case = 1..3 connections, each with k tracked and j then-untracked resources, optional session instance, and an ending "
+RULE = ("a case = 1..3 connections, each with k tracked and j then-untracked resources, optional session instance, 0-2 item streams the "
+        "client never finishes (ITER_STREAM_LINGER 0 or default), a disconnect hook that may raise, and an ending "
         "from {orderly, abort(RST)/FIN at byte offset o of a valid request (all offsets enumerated in the thorough tier), bad magic, "
         "oversize declaration, undecodable payload + close, SecurityError raised by a method, server-side timeout, stay open}; endings "
         "are executed in a generated order while the other connections stay open. Non-trivial: a non-orderly ending with >= 1 "
